@@ -66,6 +66,16 @@ PY_PAYLOADS = [
 SHELL_NAMES = ["$(touch {C})", "`touch {C}`", "a;touch {C};", "|touch {C}", "&& touch {C}", "x'; touch {C}; '", "-o{C}", "../{Cb}", "{C}"]
 
 
+# condition forms in which a payload-bearing macro name is used: anything a "lenient" evaluator might hand to the host language
+COND_FORMS = ["{N}", "{N} >= 4.8", "{N} == 1.0", "1.5 < {N}", "{N} > 1e3", "{N} >= .5", "({N}) >= 1.", "{N} + 0.5", "{N} >= 4.8 && defined({N})", "defined {N} && {N} > 2.0",
+              "{N} == \"s\"", "{N} == 'c'", "{N} ? 1 : 0", "{N} == 0x10", "{N} >= 4.8 || 0", "!{N} != 2.5", "{N} * 2.0 > 1", "{N} / 3.0", "{N} >= 10L", "-{N} < 0.0", "{N} % 2 == 1.0",
+              "{N} >= 4.8 && {N} < 5.2", "{N}(1) > 0.5", "{N} .gt. 1.0"]
+
+
+def cond(rng, name):
+    return rng.choice(COND_FORMS).format(N=name)
+
+
 def adversarial(rng, canary, victim, wsroot):
     """-> (files, config or None, template tag)"""
     C, V, W = canary, victim, wsroot
@@ -76,18 +86,18 @@ def adversarial(rng, canary, victim, wsroot):
     files, cfg = {}, None
     ext = rng.choice([".F90", ".F", ".fpp", ".F08"])
     if kind == "define-if":
-        files["adv" + ext] = f"#define X {pay}\n#if X\n{body}#endif\n#if defined(X) && X\n#endif\n"
+        files["adv" + ext] = f"#define X {pay}\n#if {cond(rng, 'X')}\n{body}#endif\n#if defined(X) && {cond(rng, 'X')}\n#endif\n#if 0\n#elif {cond(rng, 'X')}\n#endif\n"
     elif kind == "if":
         files["adv" + ext] = f"#if {pay}\n{body}#else\nmodule other\nend module other\n#endif\n"
     elif kind == "elif":
         files["adv" + ext] = f"#if 0\n#elif {pay}\n{body}#elif defined(Y) || {pay}\n#endif\n"
     elif kind == "funcmacro-if":
-        files["adv" + ext] = f"#define F(x) __import__('os').system(x)\n#define G(a,b) {pay}\n#if F('touch {C}')\n#endif\n#if G(1,2)\n{body}#endif\n"
+        files["adv" + ext] = f"#define F(x) __import__('os').system(x)\n#define G(a,b) {pay}\n#if F('touch {C}')\n#endif\n#if G(1,2)\n{body}#endif\n#if G(1,2) >= 4.8\n#endif\n"
     elif kind == "funcmacro-use":
         files["adv" + ext] = f"#define F(x) {pay}\nprogram adv\n  i = F(1)\n  call F(2)\nend program adv\n"
     elif kind == "config-ppdefs":
         cfg = {"pp_defs": {"X": pay, "Y": "X"}, "pp_suffixes": [ext]}
-        files["adv" + ext] = f"#if X\n{body}#endif\n#ifdef Y\n#if Y\n#endif\n#endif\n"
+        files["adv" + ext] = f"#if {cond(rng, 'X')}\n{body}#endif\n#ifdef Y\n#if {cond(rng, 'Y')}\n#endif\n#endif\n"
     elif kind == "define-use":
         files["adv" + ext] = f"#define X {pay}\nprogram adv\n  i = X\n  print *, X\nend program adv\n"
     elif kind == "include-path":
@@ -109,10 +119,10 @@ def adversarial(rng, canary, victim, wsroot):
         ])
         files["adv" + ext] = f"#if defined(X)\n#endif\n{body}"
     elif kind == "ifdef-chain":
-        files["adv" + ext] = f"#define A {pay}\n#define B A\n#define D B\n#if D\n#elif B\n#endif\n#ifdef A\n#if !A\n#endif\n#endif\n{body}"
+        files["adv" + ext] = f"#define A {pay}\n#define B A\n#define D B\n#if {cond(rng, 'D')}\n#elif {cond(rng, 'B')}\n#endif\n#ifdef A\n#if !A\n#elif {cond(rng, 'A')}\n#endif\n#endif\n{body}"
     elif kind == "define-nested":
-        files["adv.h"] = f"#define H {pay}\n#if H\n#endif\n"
-        files["adv" + ext] = f"#include \"adv.h\"\n#if H\n{body}#endif\n"
+        files["adv.h"] = f"#define H {pay}\n#if {cond(rng, 'H')}\n#endif\n"
+        files["adv" + ext] = f"#include \"adv.h\"\n#if {cond(rng, 'H')}\n{body}#endif\n"
     else:  # doc-format
         files["adv.f90"] = ("module advdoc\ncontains\n  !> {0.__class__.__init__.__globals__} {self.__dict__} " + pay.replace("\n", " ") +
                             "\n  !! @param[in] a {a.__class__}\n  subroutine sdoc(a)\n    integer :: a !< {__import__('os').system('touch " + C + "')}\n  end subroutine sdoc\nend module advdoc\nprogram useit\n  use advdoc\n  call sdoc(1)\nend program useit\n")
